@@ -110,7 +110,8 @@ impl<'a> Fvar<'a> {
                     varstore.compute_float_delta(var_index.unwrap(), normalized_coords)
                 {
                     new_coords[i] = F2Dot14::from_f32((*v).apply_float_delta(delta))
-                        .clamp(F2Dot14::MIN, F2Dot14::MAX);
+                        // normalized coordinates lie in [-1, 1]
+                        .clamp(F2Dot14::from_bits(-0x4000), F2Dot14::ONE);
                 }
             }
         }
